@@ -64,6 +64,8 @@ Record fobs := {
   c_fraw : option string;      (* raw FelixConfiguration / environment value handed to Config.UpdateFrom (None: key absent) *)
   c_mode : mode;
   c_v4 : bool;
+  c_flags : bool * bool * bool;  (* pool attributes disabled, natOutgoing, disableBGPExport *)
+  c_api : bool;                  (* fed as a v3 IPPool (start-up path, handleAPIPool) instead of a model.IPPool (handleModelPool) *)
   o_pcr : string;              (* Config.ProgramClusterRoutes after UpdateFrom *)
   o_fipip : bool; o_fnoencap : bool;           (* ProgramIPIPClusterRoutes(), ProgramNoEncapClusterRoutes() *)
   o_calc : bool * bool * bool * bool           (* EncapsulationCalculator with this one pool: IPIPEnabled, VXLANEnabled, VXLANEnabledV6, NoEncapNeeded *)
@@ -74,6 +76,7 @@ Record bobs := {
   c_braw : braw;
   b_mode : mode;
   b_v4 : bool;
+  b_flags : bool * bool * bool;
   o_pol : policy;              (* clusterRoutePolicyFromBGPConfig *)
   o_programs : bool;           (* policy.programsPool(pool) *)
   o_stmt : stmt;               (* processIPPools for the pool's family: class of the pool's statement in KernelFilterForIPPools
@@ -90,26 +93,30 @@ Definition mode_eqb (a b : mode) : bool :=
   match a, b with MVxlan, MVxlan | MVxlanCross, MVxlanCross | MIpip, MIpip | MIpipCross, MIpipCross | MNone, MNone => true | _, _ => false end.
 
 Definition pol_eqb (a b : policy) : bool := andb (Bool.eqb (fst a) (fst b)) (Bool.eqb (snd a) (snd b)).
+Definition b3_eqb (a b : bool * bool * bool) : bool :=
+  let '(a1, a2, a3) := a in let '(b1, b2, b3) := b in andb (Bool.eqb a1 b1) (andb (Bool.eqb a2 b2) (Bool.eqb a3 b3)).
 Definition b4_eqb (a b : bool * bool * bool * bool) : bool :=
   let '(a1, a2, a3, a4) := a in let '(b1, b2, b3, b4) := b in
   andb (andb (Bool.eqb a1 b1) (Bool.eqb a2 b2)) (andb (Bool.eqb a3 b3) (Bool.eqb a4 b4)).
 
 (* a world with just this pool, no overrides, iptables dataplane, no WireGuard, IPv6 support on *)
-Definition lone_world (m : mode) (v4 : bool) : world :=
-  {| w_mode := m; w_v4 := v4; w_others := (false, false, false, false); w_ipip_ovr := None; w_vxlan_ovr := None;
+Definition lone_world (m : mode) (v4 : bool) (flags : bool * bool * bool) (api : bool) : world :=
+  {| w_mode := m; w_v4 := v4; w_disabled := fst (fst flags); w_nat := snd (fst flags); w_nobgp := snd flags; w_api := api; w_others := (false, false, false, false); w_ipip_ovr := None; w_vxlan_ovr := None;
      w_bpf := false; w_wg := false; w_wg6 := false; w_ipv6 := true |}.
 
 Definition model_agrees (g : gen) (c : case) : bool :=
   let pcr := felix_resolve g (c_fraw c) in
-  let v := felix_view_of g pcr (lone_world (c_mode c) (c_v4 c)) in
+  let w := lone_world (c_mode c) (c_v4 c) (c_flags c) (c_api c) in
+  let v := felix_view_of g pcr w in
   let p := bird_policy g (c_braw c) in
-  let act := bird_kernel_action g p (c_mode c) in
-  andb (andb (mode_eqb (c_mode c) (b_mode c)) (Bool.eqb (c_v4 c) (b_v4 c))) (
+  let act := bird_kernel_action g p (c_mode c) (snd (c_flags c)) in
+  andb (andb (andb (mode_eqb (c_mode c) (b_mode c)) (Bool.eqb (c_v4 c) (b_v4 c)))
+             (b3_eqb (c_flags c) (b_flags c))) (
   andb (andb (andb (String.eqb pcr (o_pcr c)) (Bool.eqb (v_prog_ipip v) (o_fipip c)))
              (andb (Bool.eqb (v_prog_noencap v) (o_fnoencap c)) (b4_eqb (v_calc v) (o_calc c))))
        (andb (andb (pol_eqb p (o_pol c)) (pol_eqb (bird_policy_table g (c_braw c)) (o_pol c)))
              (andb (andb (Bool.eqb (bird_programs_pool g p (c_mode c)) (o_programs c))
-                         (stmt_eqb (o_stmt c) (match act with Accept => if c_v4 c then SAccept else SNoStmt | Reject => SReject end)))
+                         (stmt_eqb (o_stmt c) (if bird_stmt_produced g w then match act with Accept => if c_v4 c then SAccept else SNoStmt | Reject => SReject end else SNoStmt)))
                    (Bool.eqb (o_tunl0 c) (negb (fst p)))))).
 
 (* Ownership as it can be read off the implementation's observables, following DESIGN.md section 2:
@@ -125,7 +132,7 @@ Definition felix_observed (c : case) : bool :=
   end.
 
 Definition bird_observed (c : case) : bool :=
-  match o_stmt c with SAccept => true | SNoStmt => negb (c_v4 c) | _ => false end.
+  match o_stmt c with SAccept | SNoStmt => true | _ => false end   (* no statement: the template's final `accept;` applies *).
 
 Definition ok_case (c : case) : bool :=
   let f := spec_resolve felix_spec_default (c_fraw c) in
